@@ -194,6 +194,11 @@ class SArr(np.ndarray):
             idx = idx.concrete()
         super().__setitem__(idx, val)
 
+    def astype(self, dtype, *a, **kw):
+        if has_sym(self) and dtype in (float, np.float64, object, "float", "float64"):
+            return self.copy()          # a symbolic array converted "to float" stays symbolic (the reals are the model of float)
+        return np.asarray(self.view(np.ndarray)).astype(dtype, *a, **kw)
+
     def any(self, axis=None, **kw):
         return _any(self, axis)
 
